@@ -411,6 +411,10 @@ impl Check for C19 {
                             // printing rounds floats to 14 digits: the exact value is checked inside the program
                             if let Some(l) = exact_lit(&r) {
                                 lines.push(Line { expr: format!("(v{} {} v{}) == {}", i, op, j, l), expect: Some("true".into()), key: (i, j, "exact") });
+                            } else if !has_float_value(&r) {
+                                // the result is used again: compared with the same value written as a literal (both ways round)
+                                lines.push(Line { expr: format!("(v{} {} v{}) == {}", i, op, j, lit(&r)), expect: Some("true".into()), key: (i, j, "result==lit") });
+                                lines.push(Line { expr: format!("{} != (v{} {} v{})", lit(&r), i, op, j), expect: Some("false".into()), key: (i, j, "lit!=result") });
                             }
                         }
                     }
@@ -486,9 +490,12 @@ impl Check for C19 {
                 return;
             }
             Compiled::Err { errors, .. } => {
-                // the generator only builds well-typed operator applications: a rejection is a harness problem
+                // the generator only builds operator applications the property defines on these types (and the
+                // unchanged tree accepts every one of them): a rejection says the operator is NOT defined there
                 st.count("rejected_by_compiler");
-                st.sample(|| J::obj().with("REJECTED", J::s(errors.first().map(|e| e.display.clone()).unwrap_or_default())).with("source", J::s(src.clone())));
+                let first = errors.first().map(|e| e.display.clone()).unwrap_or_default();
+                let key: String = first.lines().nth(1).unwrap_or("").trim().chars().filter(|c| c.is_ascii_alphanumeric() || *c == ' ').take(50).collect::<String>().replace(' ', "-");
+                st.violation(viol(format!("composite:defined-operator-application-rejected:{}", key), J::s(first.chars().take(600).collect::<String>())));
                 return;
             }
             Compiled::Panic { location, .. } => {
@@ -638,6 +645,14 @@ impl Check for C19 {
 }
 
 /// a literal that denotes exactly this value (floats: shortest round-trip text without exponent), if there is one
+fn has_float_value(v: &V) -> bool {
+    match v {
+        V::F(_) => true,
+        V::T(xs) => xs.iter().any(has_float_value),
+        _ => false,
+    }
+}
+
 fn exact_lit(v: &V) -> Option<String> {
     fn ok(v: &V) -> bool {
         match v {
